@@ -4,7 +4,7 @@ use crate::{EncodeMode, MFType};
 
 // C18-C / C03-B: .lzma writer with a declared size: header layout (LZMA_Alone: props, dict LE32, size LE64 or all-ones),
 // writes beyond the declared size are refused before anything is encoded, finishing short is refused.
-//@ {"name":"c18c_lzma_expected_size","props":["C18","C03","C19"],"obligation":"C18-C","timeout":1500,"mem_gb":9,"functions":["enc::lzma_writer::LZMAWriter::new","enc::lzma_writer::LZMAWriter::write","enc::lzma_writer::LZMAWriter::finish","lz::lz_encoder::LZEncoderData::fill_window","enc::encoder::LZMAEncoder::encode_for_lzma1"],"bounds":"lc=1, lp=0, pb=2, dict_size 4096 (concrete); expected size None or any u64; end-marker flag symbolic (all four combinations of the 5-argument constructor); two write calls of 2 and 1 bytes; Fast/HC4; unwind 14","assumes":["writes are shorter than the encoder's look-ahead, so no symbol is coded before finish (the coding loop itself is outside this harness)","successful finish path cut (kani::assume) - it would run the real encoder"]}
+//@ {"name":"c18c_lzma_expected_size","props":["C18","C03","C19"],"obligation":"C18-C","timeout":1500,"mem_gb":9,"functions":["enc::lzma_writer::LZMAWriter::new","enc::lzma_writer::LZMAWriter::write","enc::lzma_writer::LZMAWriter::finish","lz::lz_encoder::LZEncoderData::fill_window","enc::encoder::LZMAEncoder::encode_for_lzma1"],"bounds":"lc=1, lp=0, pb=2, dict_size 4096 (concrete); expected size None or any u64; end-marker flag symbolic (all four combinations of the 5-argument constructor); two write calls of 2 and 1 bytes; Fast/HC4; unwind 14","assumes":["writes are shorter than the encoder's look-ahead, so no symbol is coded before finish (the coding loop itself is outside this harness)","finish() is checked separately with concrete sizes (c18c_lzma_finish_short_*)"]}
 #[kani::proof]
 #[kani::unwind(14)]
 #[kani::stub(crate::enc::encoder::LZMAEncoder::new, crate::enc::encoder::verif_stubs_enc::verif_cheap_encoder)]
@@ -54,13 +54,34 @@ fn c18c_lzma_expected_size() {
     }
     assert!(w.get_uncompressed_size() == accepted, "C18-C: byte counter differs from the bytes accepted");
     assert!(w.rc.inner().len == 13, "no symbol may be coded before the look-ahead is filled");
-    let short = has_exp && exp != accepted;
-    kani::cover!(short && exp > accepted, "finish short of the declared size");
     kani::cover!(has_exp && r2.is_err(), "write beyond the declared size refused");
-    kani::assume(short); // the successful finish would run the real encoder
+    kani::cover!(!has_exp, "unknown size");
+    core::mem::forget(w);
+}
+
+// C18-C: finish() short of the declared size is refused - whatever the end-marker flag says.  (Declared size and byte
+// count are concrete here: with a symbolic size CBMC walks the whole encoder behind the size check - 9 GB OOM.)
+fn lzma_finish_short(marker: bool) {
+    let o = LZMAOptions::new(4096, 1, 0, 2, EncodeMode::Fast, 32, MFType::HC4, 4);
+    let mut sink = Sink::<32>::new();
+    let mut w = LZMAWriter::new(&mut sink, &o, true, marker, Some(5)).unwrap();
+    assert!(matches!(w.write(&[0x41, 0x42, 0x43]), Ok(3)));
     let f = w.finish();
     assert!(f.is_err(), "C18-C: finish accepted although fewer bytes than declared were written");
+    kani::cover!(true, "end reached");
 }
+
+//@ {"name":"c18c_lzma_finish_short_no_marker","props":["C18","C19"],"obligation":"C18-C","timeout":1500,"mem_gb":9,"functions":["enc::lzma_writer::LZMAWriter::new","enc::lzma_writer::LZMAWriter::write","enc::lzma_writer::LZMAWriter::finish"],"bounds":"declared size 5, 3 bytes written, header, no end marker (all concrete); unwind 14","assumes":["LZMAEncoder::new stubbed"],"stubs":["LZMAEncoder::new -> verif_cheap_encoder"]}
+#[kani::proof]
+#[kani::unwind(14)]
+#[kani::stub(crate::enc::encoder::LZMAEncoder::new, crate::enc::encoder::verif_stubs_enc::verif_cheap_encoder)]
+fn c18c_lzma_finish_short_no_marker() { lzma_finish_short(false); }
+
+//@ {"name":"c18c_lzma_finish_short_with_marker","props":["C18","C19"],"obligation":"C18-C","timeout":1500,"mem_gb":9,"functions":["enc::lzma_writer::LZMAWriter::new","enc::lzma_writer::LZMAWriter::write","enc::lzma_writer::LZMAWriter::finish"],"bounds":"declared size 5, 3 bytes written, header AND end marker (the combination only the 5-argument constructor produces); unwind 14","assumes":["LZMAEncoder::new stubbed"],"stubs":["LZMAEncoder::new -> verif_cheap_encoder"]}
+#[kani::proof]
+#[kani::unwind(14)]
+#[kani::stub(crate::enc::encoder::LZMAEncoder::new, crate::enc::encoder::verif_stubs_enc::verif_cheap_encoder)]
+fn c18c_lzma_finish_short_with_marker() { lzma_finish_short(true); }
 
 use crate::Read;
 
